@@ -24,21 +24,24 @@ impl Default for GameHistory {
 
 impl fmt::Display for GameHistory {
     fn fmt(&self, f: &mut fmt::Formatter) -> fmt::Result {
-        if self.positions.is_empty() {
+        if self.moves.is_empty() {
             write!(f, "")
         } else {
             let mut game_history_string;
             let first_move_string = self.moves[0].to_string(self.metadata[0]);
             match self.positions[0].get_side_to_move() {
                 Color::White => game_history_string = format!("1.{first_move_string} "),
-                Color::Black => game_history_string = format!("1. ... {first_move_string}"),
+                Color::Black => game_history_string = format!("1. ... {first_move_string} "),
             }
 
             let white_starting = self.positions[0].get_side_to_move() == Color::White;
             for i in 1..self.moves.len() {
                 let mut next_move_string = self.moves[i].to_string(self.metadata[i]);
                 next_move_string = if (i % 2 != 0) ^ white_starting {
-                    format!("{}.{next_move_string} ", (i + 2) / 2)
+                    format!(
+                        "{}.{next_move_string} ",
+                        (i + 2 + !white_starting as usize) / 2
+                    )
                 } else {
                     format!("{next_move_string} ")
                 };
